@@ -378,7 +378,9 @@ func runFacts(repo string) (map[string]any, error) {
 	sortMaps(guardedCalls, "callee", "file", "func")
 	sortMaps(sortedLoops, "file", "func")
 	sortMaps(codegenEntries, "func")
+	sem := ri.semanticFacts(repo)
 	return map[string]any{
+		"semantic": sem,
 		"map_ranges": mapRanges, "pkg_vars": pkgVars, "go_stmts": goStmts, "rand_uses": randUses, "watched_calls": guardedCalls,
 		"sorted_import_loops": sortedLoops, "codegen_entries": codegenEntries, "func_bodies": funcBodies,
 		"structs": structs, "type_errors": ri.errs, "stubbed_imports": ri.stubbed,
